@@ -117,6 +117,29 @@ def run_text(text, arbitrary=False):
                 f"at {d[0]}: default {d[1]!r} new {d[2]!r}; text={text[:300]!r}")
     if list(old[1].errors) != list(new[1].errors):
         return ("fail", "C19/errors-differ", f"{old[1].errors} vs {new[1].errors}")
+    # Every fourth text (by its checksum, so a case replays alone): a dumps() with
+    # encoder options comes first and the plain calls after it.  The options must mean
+    # the same to both families and must not outlive their call.
+    import zlib
+    if zlib.crc32(text.encode("utf-8", "surrogatepass")) % 4 == 0:
+        kw = dict(indent=4, aggregation_end=False, width=60)
+        a = enc_outcome(lambda: pvl.dumps(old[1], **kw))
+        b = enc_outcome(lambda: pvl.new.dumps(new[1], **kw))
+        if a != b:
+            return ("fail", "C19/dumps-with-options-differs",
+                    f"dumps(..., {kw}): pvl -> {a!r:.200}; pvl.new -> {b!r:.200}; "
+                    f"text={text[:300]!r}")
+
+        again = both_loads(text)
+        if again is None or again[1][0] != "ok":
+            return ("fail", "C19/plain-load-after-options",
+                    f"pvl.new.loads after a dumps() with options: {again!r:.200}; "
+                    f"text={text[:300]!r}")
+        sn2, pn2 = structure(again[1][1], True)
+        if pn2 or nm.diff(sn, sn2) is not None:
+            return ("fail", "C19/plain-load-after-options",
+                    f"pvl.new.loads after a dumps() with options differs: "
+                    f"{pn2[:3]} {nm.diff(sn, sn2)}; text={text[:300]!r}")
     a = enc_outcome(lambda: pvl.dumps(old[1]))
     b = enc_outcome(lambda: pvl.new.dumps(new[1]))
     STATS["dumps:" + a[0]] = STATS.get("dumps:" + a[0], 0) + 1
